@@ -422,6 +422,35 @@ func runPartialJoinScenarios(rng *rand.Rand, n int, st *c06Stats, fail func(prop
 			fail("C03", "values-complete", "C03:incomplete", fmt.Sprintf("fresh replica: %d entries, %d values, the closure of the head has %d", len(fents), got, cut+1), info2)
 			fail("C01", "converges", "C01:diverged", fmt.Sprintf("a fresh replica that merged a log opened at entry %d of a chain exposes %d values (holds %d entries) instead of %d", cut, got, len(fents), cut+1), info2)
 		}
+		// an append on a log opened at an earlier head: predecessors = its heads; skip references from its
+		// own past and never one of the predecessors
+		if older2, err := ipfslog.NewLog(w.api, w.idents["C"], &ipfslog.LogOptions{ID: "L", Entries: writer.GetEntries(), Heads: []iface.IPFSLogEntry{chain[cut]}}); err == nil {
+			pc := pick(rng, []int{1, 2, 4, 8})
+			info3 := map[string]interface{}{"scenario": "append on a log opened at an earlier head", "writer_entries": k, "head_index": cut, "pointer_count": pc, "seed_iteration": it}
+			past := map[string]bool{}
+			for _, h := range hashesOf(older2.Values().Slice()) {
+				past[h] = true
+			}
+			if e, err := older2.Append(ctx, []byte("on-top"), &ipfslog.AppendOptions{PointerCount: pc}); err != nil {
+				fail("C04", "append-succeeds", "C04:append-failed", err.Error(), info3)
+			} else {
+				nx := map[string]bool{}
+				for _, c := range e.GetNext() {
+					nx[c.String()] = true
+				}
+				if len(nx) != 1 || !nx[chain[cut].GetHash().String()] {
+					fail("C04", "next-is-heads", "C04:next-not-heads", fmt.Sprintf("next=%v, the log's head was %s", e.GetNext(), chain[cut].GetHash()), info3)
+				}
+				for _, c := range e.GetRefs() {
+					if nx[c.String()] {
+						fail("C04", "refs-disjoint-next", "C04:ref-in-next", "reference "+c.String()+" is also a predecessor", info3)
+					}
+					if !past[c.String()] {
+						fail("C04", "refs-in-past", "C04:ref-outside-past", "reference "+c.String()+" is not in the causal past of the log's heads", info3)
+					}
+				}
+			}
+		}
 	}
 }
 
@@ -476,9 +505,17 @@ func runAppendScenarios(rng *rand.Rand, n int, st *c06Stats, fail func(prop, mon
 		w := newWorld()
 		base := pick(rng, []int{1<<53 - 2, 1<<53 - 1, 1 << 53, 1<<53 + 1, 1<<53 + 7, 1 << 62, 41})
 		var logs []*ipfslog.IPFSLog
+		// sometimes ONE clock object is handed to every NewLog call, as an application that keeps its
+		// options around does: each log must still stamp its entries with its own writer's key
+		var sharedClock iface.IPFSLogLamportClock
+		if it%3 == 2 {
+			sharedClock = entry.NewLamportClock(w.idents["B"].PublicKey, base)
+		}
 		for i, nm := range names {
 			opts := &ipfslog.LogOptions{ID: "L"}
-			if i != 1 {
+			if sharedClock != nil {
+				opts.Clock = sharedClock
+			} else if i != 1 {
 				// the clock handed to NewLog only carries a time to resume from: sometimes it is the clock of an
 				// entry of ANOTHER writer (its id is that writer's key, not ours)
 				cid := w.idents[nm].PublicKey
@@ -930,5 +967,83 @@ func runSeededClockScenarios(rng *rand.Rand, n int, st *c06Stats, fail func(prop
 			panic(err)
 		}
 		checkLinearisation(other, srt, fail, info2)
+	}
+}
+
+// Logs opened with explicit heads (C02): NewLog{Entries, Heads}, and the loaders, which always pass
+// the heads they found.  Such a log must know which of its entries are referenced just as a log
+// built by appends does: merging a replica that is several entries behind must leave the heads at
+// the unreferenced entries, and the next append must name exactly those.
+func runOpenedJoinScenarios(rng *rand.Rand, n int, st *c06Stats, fail func(prop, mon, key, detail string, c interface{})) {
+	ctx := context.Background()
+	for it := 0; it < n; it++ {
+		w := newWorld()
+		writer, _ := ipfslog.NewLog(w.api, w.idents["A"], &ipfslog.LogOptions{ID: "L"})
+		stale, _ := ipfslog.NewLog(w.api, w.idents["B"], &ipfslog.LogOptions{ID: "L"})
+		k := 4 + rng.Intn(5)
+		cut := rng.Intn(k - 2) // the stale replica stops after entry #cut: at least two behind
+		diverged := rng.Intn(3) == 0
+		for i := 0; i < k; i++ {
+			if _, err := writer.Append(ctx, []byte(fmt.Sprintf("a%d", i+1)), &ipfslog.AppendOptions{PointerCount: pick(rng, []int{1, 2, 4})}); err != nil {
+				panic(err)
+			}
+			if i == cut {
+				if _, err := stale.Join(writer, -1); err != nil {
+					panic(err)
+				}
+				if diverged {
+					if _, err := stale.Append(ctx, []byte("b1"), nil); err != nil {
+						panic(err)
+					}
+				}
+			}
+		}
+		mh, err := writer.ToMultihash(ctx)
+		if err != nil {
+			panic(err)
+		}
+		for how := 0; how < 4; how++ {
+			var opened *ipfslog.IPFSLog
+			var err error
+			switch how {
+			case 0:
+				opened, err = ipfslog.NewLog(w.api, w.idents["C"], &ipfslog.LogOptions{ID: "L", Entries: writer.GetEntries(), Heads: writer.Heads().Slice()})
+			case 1:
+				opened, err = ipfslog.NewLog(w.api, w.idents["C"], &ipfslog.LogOptions{ID: "L", Entries: writer.GetEntries()})
+			case 2:
+				opened, err = ipfslog.NewFromMultihash(ctx, w.api, w.idents["C"], mh, &ipfslog.LogOptions{ID: "L"}, &ipfslog.FetchOptions{})
+			case 3:
+				opened, err = ipfslog.NewFromJSON(ctx, w.api, w.idents["C"], writer.ToJSONLog(), &ipfslog.LogOptions{ID: "L"}, &entry.FetchOptions{})
+			}
+			if err != nil {
+				panic(err)
+			}
+			st.aliasRuns++
+			info := map[string]interface{}{"scenario": "a log opened with its heads given merges a replica that is behind", "entries": k, "stale_replica_stops_after": cut + 1,
+				"stale_replica_diverged": diverged, "opened_by": []string{"NewLog{Entries,Heads}", "NewLog{Entries}", "NewFromMultihash", "NewFromJSON"}[how], "seed_iteration": it}
+			if _, err := opened.Join(stale, -1); err != nil {
+				fail("C01", "merge-succeeds", "C01:merge-failed", err.Error(), info)
+				continue
+			}
+			ents := opened.GetEntries().Slice()
+			heads := sortedCopy(hashesOf(opened.Heads().Slice()))
+			if want := unreferenced(ents); !eqStrings(heads, want) {
+				fail("C02", "heads-exact", "C02:heads-not-unreferenced", fmt.Sprintf("after the merge the heads are %d entries, the unreferenced entries are %d (%v vs %v)", len(heads), len(want), heads, want), info)
+			}
+			if len(opened.Values().Slice()) != len(ents) {
+				fail("C03", "values-complete", "C03:incomplete", "Values() incomplete after the merge", info)
+			}
+			e, err := opened.Append(ctx, []byte("c1"), &ipfslog.AppendOptions{PointerCount: 2})
+			if err != nil {
+				panic(err)
+			}
+			var next []string
+			for _, c := range e.GetNext() {
+				next = append(next, c.String())
+			}
+			if want := unreferenced(ents); !eqStrings(sortedCopy(next), want) {
+				fail("C04", "next-is-heads", "C04:next-not-heads", fmt.Sprintf("the entry appended after the merge names %v, the unreferenced entries were %v", next, want), info)
+			}
+		}
 	}
 }
